@@ -157,6 +157,13 @@ fn one_program(lab: &Lab, ci: u64, prog: Arc<Program>, inputs: Inputs, kind: &st
         }
     };
     let layout = &compiled.layout;
+    for (row, _) in &layout.public_inputs {
+        let qa = layout.gates[*row].sel[6];
+        if qa != BlsScalar::one() {
+            // the public input is not scaled by q_arith in the row identity
+            ev.bucket(if qa == BlsScalar::zero() { "pi_rows.q_arith_zero" } else { "pi_rows.q_arith_other" });
+        }
+    }
     let honest = common::build_instance(&prog, &inputs, &[]).ok().map(|(s, _)| s);
     let nwit = honest.as_ref().map(|h| h.witnesses.len()).unwrap_or(0);
     // instances: honest + tampered
@@ -415,6 +422,8 @@ pub fn run(tier: Tier, seed: u64) -> i32 {
     ev.floor("unsatisfied instances", ev.bucket_get("rsat.unsatisfied"), tier.pick(100, 1500));
     ev.floor("proved and verified", ev.bucket_get("proved_and_verified"), tier.pick(60, 600));
     ev.floor("components seen violated", ev.set_len("violated") as u64, 14);
+    ev.floor("public-input rows whose q_arith is neither 0 nor 1", ev.bucket_get("pi_rows.q_arith_other"), tier.pick(3, 30));
+    ev.floor("public-input rows with q_arith = 0", ev.bucket_get("pi_rows.q_arith_zero"), tier.pick(3, 30));
     ev.floor("copy-only violations", if ev.sets_contains("violated_alone", "copy") { 1 } else { 0 }, 1);
     ev.floor("last-row families", ev.set_len("last_row_family") as u64, 4);
     ev.floor("symmetric multi-row violations", ev.bucket_get("symmetric_cases"), tier.pick(20, 200));
